@@ -436,7 +436,12 @@ int __printf(void (*printchar_handler)(void *d, int c),
             while (isdigit((unsigned char)*format))
                 ++format;
         }
-        width = MAX(width, 0);
+        if (width < 0)
+        {
+            /* a negative '*' width is a '-' flag followed by a positive width */
+            ops |= OPS_FLAG_LEFT_ALIGN;
+            width = -width;
+        }
 
         /* get precision */
         ops |= *format == '.' ? OPS_PREC_IS_GIVEN : 0;
